@@ -176,6 +176,28 @@ def _real(o, ns, N, d, df, dim):
                 % (bad_shape, shape))
     else:
         o.close("real_inverse_pair", worst, TOL)
+    # leading batch dimensions: every item of a stack is transformed on its own (forward and inverse)
+    basev = ((numpy.arange(n) * 7) % 5 - 1.5).reshape(shape)
+    worst_b = 0.0
+    for b in BATCHES:
+        nb = int(numpy.prod(b))
+        st = numpy.array([numpy.roll(basev, 2 * i + 1) * (i + 1) for i in range(nb)]).reshape(b + shape)
+        Y = numpy.asarray(fwd(st.copy()))
+        o.stat("lib_calls", 1 + nb)
+        if Y.shape != b + hshape:
+            o.check("real_batch_per_item", False, sub="forward:batch=%s" % (b,), detail="shape %s" % (Y.shape,))
+            continue
+        for idx in itertools.product(*[range(k) for k in b]):
+            y1 = numpy.asarray(fwd(st[idx].copy()))
+            worst_b = max(worst_b, _maxabs(Y[idx] - y1) / max(_maxabs(y1), 1e-300))
+        if N % 2 == 0 or dim == 2:          # the inverse of an odd 1-d length is the recorded open finding
+            Z = numpy.asarray(inv(Y.copy()))
+            o.stat("lib_calls", 1 + nb)
+            if Z.shape != st.shape:
+                o.check("real_batch_per_item", False, sub="inverse:batch=%s" % (b,), detail="shape %s" % (Z.shape,))
+                continue
+            worst_b = max(worst_b, _maxabs(Z - st) / max(_maxabs(st), 1e-300))
+    o.close("real_batch_per_item", worst_b, TOL)
     # superposition
     e, k = linear.superposition_error(fwd, shape, T, dtype=float)
     o.stat("lib_calls", k)
